@@ -97,7 +97,11 @@ def run(ck, rng):
             bad = "the dry run changed the file system: %r" % [p for p in set(mid) ^ set(before)][:3]
         else:
             name_err = lambda r: r.startswith("err:invalid_name") or r.startswith("err:invalid_path")
-            if name_err(dr) != name_err(rr):
+            if name_err(dr) != name_err(rr) and "massive" in name and name_err(dr) and rr.startswith("err:"):
+                # massive mode validates and creates root by root: another root's error (e.g. a root that already
+                # "exists") may surface first; the tree is rejected either way
+                ck.count("massive_other_error_first")
+            elif name_err(dr) != name_err(rr):
                 bad = "dry run says %s, real run says %s" % (dr[:40], rr[:40])
             elif dr == "ok" and rr == "ok":
                 report = unhx(dout[1:]) if dout != "-" else b""
